@@ -172,6 +172,9 @@ func (r *Report) print(verbose bool) {
 			fmt.Printf("  %-11s %-60s x%-3d %-7s %6.2fs %s\n", o.Status, o.Name, o.Count, o.Solver, o.Secs, o.Pos)
 			if o.Status != "discharged" && o.Status != "covered" && verbose {
 				fmt.Printf("      path: %s\n      goal: %s\n", o.Path, trunc(o.Goal, 600))
+				if o.ob.Note != "" {
+					fmt.Printf("      note: %s\n", o.ob.Note)
+				}
 				if o.Model != "" {
 					fmt.Printf("      model: %s\n", trunc(strings.ReplaceAll(o.Model, "\n", " "), 1500))
 				}
@@ -269,7 +272,8 @@ func (r *Report) finish(repo, verif, prop, tier string, writeEvidence bool) int 
 	bootstrap := len(expected[prop]) == 0
 	var undecided []string
 	report := func(name, why, solverOut string, ob *Obligation) {
-		if ob != nil && !bootstrap && !exp[name] && !(ob.Status == "failed" && !strings.Contains(ob.Solver, "quantifier-free")) {
+		syntactic := ob != nil && ob.Goal == "false" && ob.Kind != "cover" // a discipline rule violated on a path the solver cannot refute
+		if ob != nil && !bootstrap && !exp[name] && !syntactic && !(ob.Status == "failed" && !strings.Contains(ob.Solver, "quantifier-free")) {
 			// an obligation that never discharged on the pinned tree and has no genuine model is not claimed
 			if ob.Replay != "" {
 				rp := map[string]interface{}{}
@@ -298,6 +302,9 @@ func (r *Report) finish(repo, verif, prop, tier string, writeEvidence bool) int 
 		suffix := " no-failing-input-found"
 		if ob != nil {
 			rp["path"] = ob.Path
+			if ob.Note != "" {
+				rp["note"] = ob.Note
+			}
 			rp["pos"] = ob.Pos
 			rp["goal"] = ob.Goal
 			rp["solver"] = ob.Solver
@@ -324,7 +331,8 @@ func (r *Report) finish(repo, verif, prop, tier string, writeEvidence bool) int 
 	}
 	var missing []string
 	for n := range exp {
-		if !present[n] {
+		if !present[n] && !strings.Contains(n, "/cover:") {
+			// (cover names carry SSA block numbers, which harmless edits renumber: they are not pinned)
 			missing = append(missing, n)
 		}
 	}
